@@ -12,6 +12,7 @@ import (
 	"os/exec"
 	"strconv"
 	"strings"
+	"sync"
 	"time"
 
 	"github.com/NethermindEth/juno/consensus/propeller"
@@ -389,7 +390,27 @@ func stepsString(steps []procStepT) string {
 }
 
 // procCase runs one scenario in a child, evaluates the oracle and compares with the model.
-func procCase(h *hctx, sc *procScenario) {
+func procCase(h *hctx, sc *procScenario) { procCaseWith(h, sc, nil) }
+
+// runProcChildren runs the scenarios in child processes, a few at a time.
+func runProcChildren(scs []*procScenario) []procRun {
+	out := make([]procRun, len(scs))
+	sem := make(chan struct{}, 6)
+	var wg sync.WaitGroup
+	for i := range scs {
+		wg.Add(1)
+		sem <- struct{}{}
+		go func(i int) {
+			defer wg.Done()
+			defer func() { <-sem }()
+			out[i] = runProcChild(scs[i])
+		}(i)
+	}
+	wg.Wait()
+	return out
+}
+
+func procCaseWith(h *hctx, sc *procScenario, pre *procRun) {
 	rp := map[string]any{"kind": "processor", "scenario": sc}
 	w, err := newProcWorld(sc)
 	if err != nil {
@@ -398,7 +419,12 @@ func procCase(h *hctx, sc *procScenario) {
 	}
 	total := w.k + w.c
 	h.res.Case(fmt.Sprintf("proc/%d/%d/%d/%s", sc.N, sc.Local, sc.Pub, stepsString(sc.Steps)), true)
-	pr := runProcChild(sc)
+	var pr procRun
+	if pre != nil {
+		pr = *pre
+	} else {
+		pr = runProcChild(sc)
+	}
 	for try := 0; try < 3 && pr.crashed && strings.Contains(pr.stderr, "concurrent map"); try++ {
 		// Processor.subProcessors is read by ProcessMessage and written by Run without a lock: the Go
 		// runtime sometimes notices. Not deterministic, so it is counted, not reported as a violation.
@@ -489,6 +515,9 @@ func procCase(h *hctx, sc *procScenario) {
 		h.res.Hit("proc:completed")
 		// every broadcast is the publisher's unit for the local index, and there is at most one
 		for _, e := range bcasts {
+			if e.To != sc.N-2 {
+				h.violate("processor-broadcast-recipient-count", fmt.Sprintf("%s: local unit broadcast to %d peers, committee without publisher and local peer has %d", desc, e.To, sc.N-2), rp)
+			}
 			if e.Unit != honestLocal {
 				h.violate("processor-broadcasts-a-unit-that-is-not-the-publishers", fmt.Sprintf("%s: broadcast %s", desc, clip(e.Unit)), rp)
 			}
@@ -497,7 +526,8 @@ func procCase(h *hctx, sc *procScenario) {
 			// Processor.finalize deletes the subprocessor before it adds the key to the finalized cache,
 			// without a lock: a unit arriving in between starts a second subprocessor for a finished
 			// message. Real, but a race: counted, not reported (the check must be deterministic).
-			h.res.Hit("proc:second-broadcast-after-finalization-race")
+			// (decided in procModel, which knows whether a subprocessor had ended before)
+			h.res.Hit("proc:more-than-one-broadcast")
 		}
 		if builtAt >= 0 && len(bcasts) == 0 {
 			sig := "processor-never-broadcasts-local-unit-although-threshold-reached"
@@ -666,6 +696,7 @@ func procModel(h *hctx, sc *procScenario, w *procWorld, obs []stepObs, pr procRu
 	if pr.crashed {
 		if afterEnd {
 			h.res.Hit("proc:divergence-after-finalization-race")
+			h.postFinalization = append(h.postFinalization, rp)
 		} else {
 			h.res.Compared(1)
 			h.res.Mismatch(lib.Mismatch{Sig: "processor-step", Input: map[string]any{"scenario": sc}, Model: "no panic", Impl: "child crashed: " + clip(firstPanicLines(pr.stderr))})
@@ -680,12 +711,26 @@ func procModel(h *hctx, sc *procScenario, w *procWorld, obs []stepObs, pr procRu
 	}
 	h.res.Compared(1)
 	if strings.Join(modelEvents, "+") != strings.Join(implEvents, "+") {
-		if afterEnd && strings.HasPrefix(strings.Join(implEvents, "+"), strings.Join(modelEvents, "+")) {
-			h.res.Hit("proc:divergence-after-finalization-race")
-			return
+		honestLocal := renderUnit(&w.units[w.localIdx])
+		extraOnlyLocal := len(implEvents) > len(modelEvents) && strings.HasPrefix(strings.Join(implEvents, "+"), strings.Join(modelEvents, "+"))
+		for _, e := range implEvents {
+			if e != honestLocal {
+				extraOnlyLocal = false
+			}
 		}
-		h.res.Mismatch(lib.Mismatch{Sig: "processor-broadcasts", Input: map[string]any{"scenario": sc},
-			Model: clip(strings.Join(modelEvents, "+")), Impl: clip(strings.Join(implEvents, "+"))})
+		switch {
+		case afterEnd && extraOnlyLocal:
+			// a unit of a finished message slipped through the unlocked window of Processor.finalize and
+			// started a second subprocessor (see above): tolerated when rare
+			h.res.Hit("proc:divergence-after-finalization-race")
+			h.postFinalization = append(h.postFinalization, rp)
+		case extraOnlyLocal:
+			h.violate("processor-broadcasts-local-unit-twice", fmt.Sprintf("n=%d local=%d publisher=%d steps [%s]: %d broadcasts of the local unit, the model allows %d",
+				sc.N, sc.Local, sc.Pub, stepsString(sc.Steps), len(implEvents), len(modelEvents)), rp)
+		default:
+			h.res.Mismatch(lib.Mismatch{Sig: "processor-broadcasts", Input: map[string]any{"scenario": sc},
+				Model: clip(strings.Join(modelEvents, "+")), Impl: clip(strings.Join(implEvents, "+"))})
+		}
 	}
 }
 
@@ -745,7 +790,27 @@ func secProcessor(h *hctx, r *lib.RNG) {
 		return
 	}
 	bad := []string{"shard-flip", "proof-flip", "sig-flip", "index-oob", "index-next", "shards-none", "committee-flip", "nonce-plus1", "root-flip", "publisher-other"}
-	ns := []int{2, 3, 4, 5, 7}
+	var scs []*procScenario
+	add := func(sc *procScenario) { scs = append(scs, sc) }
+	// exhaustive for the smallest committees: every order of the honest units, with one forged unit
+	// (three kinds that keep the message key) at every position
+	for _, n := range []int{3, 4} {
+		total := n - 1
+		for _, lp := range [][2]int{{0, 1}, {1, 0}, {n - 1, 1}} {
+			for _, perm := range permutations(total) {
+				add(mk(n, lp[0], lp[1], 11, honestSteps(perm)))
+				for pos := 0; pos <= total; pos++ {
+					for _, b := range []string{"shard-flip", "sig-flip", "index-oob"} {
+						steps := honestSteps(perm)
+						forged := procStepT{Unit: perm[pos%total], Corrupt: b, Sender: "legit"}
+						steps = append(steps[:pos:pos], append([]procStepT{forged}, steps[pos:]...)...)
+						add(mk(n, lp[0], lp[1], 11, steps))
+					}
+				}
+			}
+		}
+	}
+	ns := []int{2, 5, 7}
 	if h.f.Thorough() {
 		ns = append(ns, 10, 13)
 	}
@@ -765,23 +830,23 @@ func secProcessor(h *hctx, r *lib.RNG) {
 				all[i] = i
 			}
 			// 1. every unit in order, then again (duplicates after the end)
-			procCase(h, mk(n, local, pub, 33, honestSteps(append(append([]int{}, all...), all...))))
+			add(mk(n, local, pub, 33, honestSteps(append(append([]int{}, all...), all...))))
 			// 2. shuffled
 			sh := append([]int{}, all...)
 			lib.Shuffle(r, sh)
-			procCase(h, mk(n, local, pub, 5, honestSteps(sh)))
+			add(mk(n, local, pub, 5, honestSteps(sh)))
 			// 3. highest indices first (no shard 0, usually no local shard, before the build)
 			rev := make([]int, total)
 			for i := range rev {
 				rev[i] = total - 1 - i
 			}
-			procCase(h, mk(n, local, pub, 128, honestSteps(rev)))
+			add(mk(n, local, pub, 128, honestSteps(rev)))
 			// 4. one bad unit first, of every kind, then the honest ones
 			for _, b := range bad {
 				steps := append([]procStepT{{Unit: r.Intn(total), Corrupt: b, Sender: "legit"}}, honestSteps(sh)...)
-				procCase(h, mk(n, local, pub, 20, steps))
+				add(mk(n, local, pub, 20, steps))
 			}
-			procCase(h, mk(n, local, pub, 20, append([]procStepT{{Unit: 0, Sender: lib.Pick(r, []string{"other", "outsider", "local"})}}, honestSteps(sh)...)))
+			add(mk(n, local, pub, 20, append([]procStepT{{Unit: 0, Sender: lib.Pick(r, []string{"other", "outsider", "local"})}}, honestSteps(sh)...)))
 			// 5. random interleavings of honest units, duplicates and bad units
 			for t := 0; t < h.f.Scale(3, 12); t++ {
 				var steps []procStepT
@@ -795,10 +860,36 @@ func secProcessor(h *hctx, r *lib.RNG) {
 						steps = append(steps, procStepT{Unit: r.Intn(total), Sender: "legit"})
 					}
 				}
-				procCase(h, mk(n, local, pub, r.Intn(60), steps))
+				add(mk(n, local, pub, r.Intn(60), steps))
 			}
 		}
 	}
+	runs := runProcChildren(scs)
+	for i := range scs {
+		procCaseWith(h, scs[i], &runs[i])
+	}
+	// The window between `delete(p.subProcessors)` and `p.finalized.Add` is a few instructions wide:
+	// a unit of a finished message gets through it once in many hundreds of scenarios at most. If it
+	// happens in a run again and again, units of finished messages are simply being accepted.
+	if len(h.postFinalization) >= 4 {
+		h.violate("processor-accepts-units-of-a-finished-message",
+			fmt.Sprintf("in %d of %d scenarios units handed over after their message was finished started a new subprocessor", len(h.postFinalization), len(scs)),
+			h.postFinalization[0])
+	}
+}
+
+func permutations(n int) [][]int {
+	if n == 0 {
+		return [][]int{{}}
+	}
+	var out [][]int
+	for _, p := range permutations(n - 1) {
+		for pos := 0; pos <= len(p); pos++ {
+			q := append(append(append([]int{}, p[:pos]...), n-1), p[pos:]...)
+			out = append(out, q)
+		}
+	}
+	return out
 }
 
 // probeProcessor: can the Processor be driven, and which of the repairs does it carry?
